@@ -29,7 +29,7 @@ func init() {
 	mc.Register(&mc.Property{
 		ID:    "C09",
 		Level: "exploration",
-		Rule: "E1 bounded-exhaustive enumeration: sources (s,from,to) = every string of length ≤3 over a small byte alphabet, also behind stems of 7/8/9 (thorough: 15/16/17) bytes in 4 variants (first byte 's' / 0x00 / 0xff, eighth byte 0x80), × every 0 ≤ from ≤ to ≤ 8·len (stemmed: from in {0,8}, to around the stem end and in the tail); per source Len(New(..)) and Cmp with the canonical encoding of the same bit string must be 0; Cmp on ALL ordered pairs of canonical encodings (one per distinct bit string); " +
+		Rule: "E1 bounded-exhaustive enumeration: sources (s,from,to) = every string of length ≤3 over a small byte alphabet, also behind stems of 7/8/9 (thorough: 15/16/17) bytes in 4 variants (first byte 's' / 0x00 / 0xff, eighth byte 0x80), × every 0 ≤ from ≤ to ≤ 8·len, plus EVERY stem length 0..40 with the last 10 bit positions as ends (stemmed: from in {0,8}, to around the stem end and in the tail); per source Len(New(..)) and Cmp with the canonical encoding of the same bit string must be 0; Cmp on ALL ordered pairs of canonical encodings (one per distinct bit string); " +
 			"CmpUpto and StrCmpUpto (from a fixed alphabet of call frames, after poisoning the dead stack with 0x00 and 0xff) on plain strings × all canonical encodings. Oracle: Go string comparison of '0'/'1' renderings (lexicographic, proper prefix first). A case is one call; non-trivial when both bit strings are non-empty.",
 		Assumptions: []string{
 			"byte values outside the alphabet and longer strings are not enumerated; lengths straddle the 8-byte fast-path switch through the stems",
@@ -97,7 +97,7 @@ type c09Enc struct {
 }
 
 func c09Stem(n int) string {
-	const base = "stemSTEMstemSTEMstemSTEMstemSTEMstemSTEMstemSTEMstemSTEMstemSTEMstemSTEM"
+	const base = "stemSTEMstemSTEMstemSTEMstemSTEMstemSTEMstemSTEMstemSTEMstemSTEMstemSTEMstemSTEMstemSTEMstemSTEM"
 	return base[:n]
 }
 
@@ -146,6 +146,22 @@ func c09Sources(c *mc.Ctx) []c09Src {
 	}
 	short := gen.Strings(alpha, 2)
 	seen := map[string]bool{}
+	// every stem length 0..40 with two tails and the last 10 bit positions as ends
+	for st := 0; st <= 40; st++ {
+		for _, v := range []int{0, 2} {
+			for _, t := range []string{"", "\x80"} {
+				s := c09StemV(st, v) + t
+				n := int32(8 * len(s))
+				for _, from := range []int32{0, 8} {
+					for to := n - 10; to <= n; to++ {
+						if to >= from && from <= n {
+							out = append(out, c09Src{gen.Bytes(s), from, to})
+						}
+					}
+				}
+			}
+		}
+	}
 	for _, st := range stems {
 		for v := 0; v < c09StemVariants; v++ {
 			stem := c09StemV(st, v)
@@ -177,6 +193,14 @@ func c09Plains(c *mc.Ctx) []string {
 	}
 	var out []string
 	seen := map[string]bool{}
+	for st := 10; st <= 40; st++ {
+		if st >= 15 && st <= 17 {
+			continue // in the stem list of the thorough tier
+		}
+		for _, v := range []int{0, 2} {
+			out = append(out, c09StemV(st, v), c09StemV(st, v)+"\x80")
+		}
+	}
 	for _, st := range stems {
 		for v := 0; v < c09StemVariants; v++ {
 			stem := c09StemV(st, v)
